@@ -21,7 +21,7 @@ ND = "naive::date::NaiveDate::"
 def run(chk, tier):
     P = Prog("default")
     chk.configs.add("default")
-    for r in (r_operators, r_offset_independent, r_iterators, r_size_hint, r_date_arith, r_absint):
+    for r in (r_operators, r_operator_directions, r_offset_independent, r_iterators, r_size_hint, r_date_arith, r_absint):
         chk.guarded(r, P, tier)
     chk.assume("that the carry / 400-year-cycle arithmetic is numerically exact (b + (a - b) = a) is not decided")
     return {
@@ -275,3 +275,8 @@ def r_date_arith(chk, P, tier):
         chk.ok("value")
     for cls, (a, b, got, want) in sorted(bad.items()):
         chk.bad(cls, "NaiveDate %s: (year, ordinal) %s with %s folds to %s, day-number arithmetic gives %s" % (cls, a, b, got, want), loc=P.loc(NDT + "::add_days"))
+
+
+def r_operator_directions(chk, P, tier=None):
+    import rules
+    rules.operator_directions(chk, P, {"time_delta::TimeDelta", "std::time::Duration", "naive::Days", "offset::fixed::FixedOffset"}, floor=44)
